@@ -1624,3 +1624,116 @@ Proof.
 Qed.
 
 End Hist.
+
+(* ------------------------------------------------------------------ C11 at the level of histories *)
+Section HistC11.
+Variable ln1p : N -> R.
+Hypothesis Hln : forall x, 0 <= ln1p x.
+Notation GT := (@global_trust RF ln1p).
+
+(* "node statistics are equal": every known node has the same multiplier *)
+Definition equal_stats (st : state RF) : Prop :=
+  forall i j, In i (@keys RF st) -> In j (@keys RF st) ->
+              @factor RF ln1p (@stats_of RF st i) = @factor RF ln1p (@stats_of RF st j).
+
+(* a set of identities that receives no (positive) trust statement from outside the set *)
+Definition unvouched (st : state RF) (Sy : list N) : Prop :=
+  NoDup Sy /\ incl Sy (@node_set RF st) /\ (forall i, In i Sy -> ~ In i (st_pre st)) /\
+  (forall e, In e (st_local st) -> 0 < e_val e -> In (e_to e) Sy -> In (e_from e) Sy).
+
+Definition pop_share (st : state RF) (Sy : list N) : R := INR (length Sy) / INR (length (@node_set RF st)).
+
+Lemma mass_GT : forall st d Sy, @mass RF (GT st d) Sy = massGT ln1p st d Sy.
+Proof. intros. unfold mass, massGT, gt. rewrite fsum_Rsum. reflexivity. Qed.
+
+Lemma equal_stats_c : forall st, equal_stats st -> @node_set RF st <> [] ->
+  exists c, forall i, In i (@keys RF st) -> @factor RF ln1p (@stats_of RF st i) = c.
+Proof.
+  intros st He Hne. destruct (@node_set RF st) as [|k r] eqn:E; [contradiction|].
+  assert (Hk : In k (@keys RF st)) by (apply sf_nk; rewrite E; now left).
+  exists (@factor RF ln1p (@stats_of RF st k)). intros i Hi. apply He; assumption.
+Qed.
+
+Lemma mass_nil : forall v : vec RF, @mass RF v [] = 0.
+Proof. intro v. unfold mass. rewrite fsum_Rsum. reflexivity. Qed.
+
+Lemma hist_closed_set_decay : forall pre ops d Sy,
+  let st := reach ln1p pre ops in
+  0 <= d -> st_pre st <> [] -> equal_stats st -> unvouched st Sy ->
+  @mass RF (GT st d) Sy <= (3 / 5) ^ N.to_nat (@rounds_run RF st) * pop_share st Sy.
+Proof.
+  intros pre ops d Sy st Hd Ha He [H1 [H2 [H3 H4]]].
+  destruct Sy as [|s Sy'] eqn:ES.
+  - rewrite mass_nil. unfold pop_share. simpl. unfold Rdiv. rewrite Rmult_0_l, Rmult_0_r. lra.
+  - rewrite <- ES in *. assert (Hne : @node_set RF st <> []).
+    { apply (in_nonempty s). apply H2. rewrite ES. now left. }
+    destruct (equal_stats_c st He Hne) as [c Hc]. rewrite mass_GT.
+    exact (closed_set_decay ln1p Hln st (reach_wf ln1p pre ops) Hne c Hc d Hd Sy H1 H2 H3 Ha H4).
+Qed.
+
+Lemma hist_sybil_seventh : forall pre ops d Sy,
+  let st := reach ln1p pre ops in
+  0 <= d -> st_pre st <> [] -> equal_stats st -> unvouched st Sy ->
+  (4 <= @rounds_run RF st)%N \/ 105 / 100000 <= pop_share st Sy ->
+  @mass RF (GT st d) Sy <= pop_share st Sy / 7.
+Proof.
+  intros pre ops d Sy st Hd Ha He [H1 [H2 [H3 H4]]] Hside.
+  destruct Sy as [|s Sy'] eqn:ES.
+  - rewrite mass_nil. unfold pop_share. simpl. unfold Rdiv. rewrite !Rmult_0_l. lra.
+  - rewrite <- ES in *. assert (Hne : @node_set RF st <> []).
+    { apply (in_nonempty s). apply H2. rewrite ES. now left. }
+    destruct (equal_stats_c st He Hne) as [c Hc]. rewrite mass_GT.
+    exact (sybil_seventh ln1p Hln st (reach_wf ln1p pre ops) Hne c Hc d Hd Sy H1 H2 H3 Ha H4 Hside).
+Qed.
+
+(* the side condition holds in every network of at most 950 nodes *)
+Lemma hist_sybil_seventh_950 : forall pre ops d Sy,
+  let st := reach ln1p pre ops in
+  0 <= d -> st_pre st <> [] -> equal_stats st -> unvouched st Sy ->
+  (length (@node_set RF st) <= 950)%nat ->
+  @mass RF (GT st d) Sy <= pop_share st Sy / 7.
+Proof.
+  intros pre ops d Sy st Hd Ha He Hu Hn. destruct Sy as [|s Sy'] eqn:ES.
+  - rewrite mass_nil. unfold pop_share. simpl. unfold Rdiv. rewrite !Rmult_0_l. lra.
+  - rewrite <- ES in *. apply hist_sybil_seventh; try assumption. right.
+    destruct Hu as [_ [H2 _]].
+    assert (Hne : @node_set RF st <> []) by (apply (in_nonempty s); apply H2; rewrite ES; now left).
+    unfold pop_share. pose proof (length_pos_INR _ Hne) as Hp.
+    assert (1 <= INR (length Sy)). { rewrite ES. change (length (s :: Sy')) with (S (length Sy')). rewrite S_INR. pose proof (pos_INR (length Sy')). lra. }
+    assert (INR (length (@node_set RF st)) <= 950). { replace 950 with (INR 950) by (simpl; lra). apply le_INR. assumption. }
+    apply (Rmult_le_reg_r (INR (length (@node_set RF st)))); [assumption|].
+    unfold Rdiv at 2. rewrite Rmult_assoc, Rinv_l by lra. lra.
+Qed.
+
+Lemma hist_small_net : forall pre ops d Sy,
+  let st := reach ln1p pre ops in
+  0 <= d -> st_pre st <> [] -> equal_stats st -> unvouched st Sy ->
+  (length (@node_set RF st) <= 100)%nat ->
+  @mass RF (GT st d) Sy < 1 / 1000.
+Proof.
+  intros pre ops d Sy st Hd Ha He [H1 [H2 [H3 H4]]] Hn.
+  destruct Sy as [|s Sy'] eqn:ES.
+  - rewrite mass_nil. lra.
+  - rewrite <- ES in *. assert (Hne : @node_set RF st <> []).
+    { apply (in_nonempty s). apply H2. rewrite ES. now left. }
+    destruct (equal_stats_c st He Hne) as [c Hc]. rewrite mass_GT.
+    apply (small_net ln1p Hln st (reach_wf ln1p pre ops) Hne c Hc d Hd Sy H1 H2 H3 Ha H4). lia.
+Qed.
+
+Lemma hist_anchor_floor : forall pre ops d a,
+  let st := reach ln1p pre ops in
+  0 <= d -> equal_stats st -> In a (st_pre st) ->
+  @alpha RF / INR (length (st_pre st)) * @vsum RF (GT st d) <= @vget RF (GT st d) a.
+Proof.
+  intros pre ops d a st Hd He Ha.
+  destruct (list_eq_dec N.eq_dec (@node_set RF st) []) as [E|Hne].
+  - unfold global_trust. rewrite E. unfold vsum, vget. cbn. lra.
+  - destruct (equal_stats_c st He Hne) as [c Hc].
+    pose proof (anchor_floor ln1p Hln st (reach_wf ln1p pre ops) Hne c Hc d Hd a Ha) as H.
+    unfold vsum. rewrite fsum_Rsum. unfold gt in H.
+    rewrite (global_trust_R ln1p st d (reach_wf ln1p pre ops) Hne) at 1. rewrite map_snd_map_keys.
+    rewrite (Rsum_map_ext (score ln1p st d) (V (GT st d)) (@keys RF st)); [exact H|].
+    intros i Hi. symmetry. apply GT_score; try assumption. apply reach_wf.
+Qed.
+
+End HistC11.
